@@ -1,10 +1,13 @@
 CONSTANTS
   Chan <- MCChan
   ChanType <- MCChanType
+  ChanType2 <- MCChanType2
+  Stages <- MCStages
   NodeV <- MCNodeV
   DegV <- MCDegV
   LoadCases <- MCLoadCases
   DegKinds <- MCDegKinds
+  EltDegKinds <- MCEltDegKindsQuick
   Crossings <- MCCrossings
   Deltas <- MCDeltas
   OffsetVecs <- MCOffsetVecsQuick
@@ -20,5 +23,6 @@ INVARIANT EqualisedToTarget
 INVARIANT BelowTargetLossOnly
 INVARIANT TargetIsDegreeElseNode
 INVARIANT PathLossByListing
+INVARIANT SecondCrossingOnItsOwn
 INVARIANT LevelByKind
 PROPERTY NeverAmplifiesStep
